@@ -332,12 +332,14 @@ class ScoreStub(BaseEstimator):
         return np.asarray(_feature_column(X, self.col), dtype=float)
 
     def __getattr__(self, name):
-        # offer exactly one soft-prediction method, chosen by `method`
+        # offer the soft-prediction method chosen by `method` ("both": predict_proba and decision_function,
+        # like a sklearn Pipeline whose availability of methods depends on the instance, not on the class)
         if name in ("predict_proba", "decision_function") and "method" in self.__dict__:
-            if self.__dict__["method"] == name:
+            if self.__dict__["method"] in (name, "both"):
                 if name == "predict_proba":
                     return lambda X: np.stack([1 - self._s(X), self._s(X)], axis=1)
-                return lambda X: self._s(X)
+                # a different scale than predict_proba, so that it matters which method is asked
+                return lambda X: 4.0 * self._s(X) - 2.0
         raise AttributeError(name)
 
     def predict(self, X):
